@@ -19,3 +19,8 @@ pub assume_specification<T, F: FnOnce(T) -> bool>[ Option::<T>::is_some_and ](o:
 pub assume_specification<T, E, U, F: FnOnce(T) -> Result<U, E>>[ Result::<T, E>::and_then ](o: Result<T, E>, f: F) -> (r: Result<U, E>)
     requires o matches Ok(x) ==> f.requires((x,)),
     ensures o matches Err(e) ==> r == Err::<U, E>(e), o matches Ok(x) ==> f.ensures((x,), r);
+pub assume_specification<T, F: FnOnce() -> T>[ Option::<T>::get_or_insert_with ](o: &mut Option<T>, f: F) -> (r: &mut T)
+    requires *old(o) is None ==> f.requires(()),
+    ensures match *old(o) { Some(x) => *r == x, None => f.ensures((), *r) }, *final(o) == Some(*final(r));
+pub assume_specification<T>[ Option::<T>::or ](o: Option<T>, b: Option<T>) -> (r: Option<T>)
+    ensures r == (match o { Some(x) => Some(x), None => b });
